@@ -18,17 +18,11 @@
     functions on a small concrete world whose inputs are built from the
     extracted constants.
 
-    NOT TIED (the literal is an inline literal of a Go function body, so it has
-    no p_ constant; what should be extracted is noted):
-    - [dot] (46, "."): contracts/container/contract.go:354 [name + "." + zone];
-      contracts/nns/contract.go:189,202,251,346,516,575,616,637,656,668,739,919
-      [std.StringSplit(.., ".")] / [fragments[i] + "." + name].
-    - [owner_of_blob]: offsets [2 + v + 4] and owner size [25]:
-      contracts/container/contract.go:1080-1082 (and [25 /* owner id size */]
-      at :123); the same offsets in [set_eacl] / [eacl_cid]: :811.
-    - [wallet_to_sh]: [wallet[1 : len(wallet)-4]], common/transfer.go:18.
-    - [is_alnum] / [is_lower] / the hyphen 45: 'a' 'z' '0' '9' '-' at
-      contracts/nns/contract.go:891,900,909.
+    Literals that are inline in Go function bodies as well ([dot], the offsets
+    of [owner_of_blob] and [wallet_to_sh], the character classes of
+    [is_alnum] / [is_lower] / the hyphen) are tied to the per-function literal
+    lists of Gen/Params.v (p_<pkg>_<func>_{int,str}lits: the literals of the
+    function body in source order), see the last section.
     Platform constants (not in /repo): Hash160 length 20 ([nns_register],
     interop.Hash160Len), public key length 33 ([add_key], [put_named],
     [set_eacl]: interop.PublicKeyCompressedLen / manifest type PublicKey),
@@ -190,3 +184,50 @@ Lemma tie_max_record_id :
    accepts (nns_add_record 5 [SELF] [] (ns_recs (p_nns_maxRecordID + 1)) DOMAIN [200%N]))
   = (true, false).
 Proof. vm_compute. reflexivity. Qed.
+
+(** * Literals written inline in Go function bodies *)
+
+(** "." : std.StringSplit(name, ".") in nns.safeSplitAndCheck and [name + "." + zone] in
+    container.PutNamed. *)
+Lemma tie_dot :
+  [dot] = bytes_of_string (nth 0 p_nns_safeSplitAndCheck_strlits EmptyString) /\
+  [dot] = bytes_of_string (nth 2 p_container_PutNamed_strlits EmptyString).
+Proof. split; vm_compute; reflexivity. Qed.
+
+(** ownerFromBinaryContainer: [offset := int(container[1]); offset = 2 + offset + 4;
+    container[offset : offset+25]] — literals [1; 2; 4; 25] in source order. *)
+Definition blob60 : bytes := 0%N :: 3%N :: map N.of_nat (seq 2 58).
+Lemma tie_owner_of_blob :
+  let l := p_container_ownerFromBinaryContainer_intlits in
+  let v := Z.of_N (nth (Z.to_nat (nth 0 l 0)) blob60 0%N) in
+  owner_of_blob blob60
+  = Halt (take (Z.to_nat (nth 3 l 0)) (drop (Z.to_nat (nth 1 l 0 + v + nth 2 l 0)) blob60))
+  /\ length l = 4%nat /\ nth 3 l 0 = p_neofsid_ownerSize.
+Proof. repeat split; vm_compute; reflexivity. Qed.
+
+(** common.WalletToScriptHash: [wallet[1 : len(wallet)-4]] — literals [1; 4]. *)
+Lemma tie_wallet_to_sh :
+  let l := p_common_WalletToScriptHash_intlits in
+  let w := map N.of_nat (seq 0 25) in
+  wallet_to_sh w = take (length w - Z.to_nat (nth 1 l 0) - Z.to_nat (nth 0 l 0)) (drop (Z.to_nat (nth 0 l 0)) w)
+  /\ length l = 2%nat.
+Proof. split; vm_compute; reflexivity. Qed.
+
+(** nns.isAlNum: ['a' <= c && c <= 'z' || '0' <= c && c <= '9'] — literals in source order;
+    checked on every byte value. *)
+Definition in_range (c : N) (lo hi : Z) : bool := (lo <=? Z.of_N c) && (Z.of_N c <=? hi).
+Definition all_bytes : list N := map N.of_nat (seq 0 256).
+Lemma tie_is_alnum :
+  let l := p_nns_isAlNum_intlits in
+  forallb (fun c => Bool.eqb (is_alnum c) (in_range c (nth 0 l 0) (nth 1 l 0) || in_range c (nth 2 l 0) (nth 3 l 0)))
+          all_bytes = true /\ length l = 4%nat.
+Proof. split; vm_compute; reflexivity. Qed.
+
+(** nns.checkFragment: root fragments start with ['a'..'z'] (literals 2, 3 of the function),
+    inner characters are alphanumeric or '-' (literal 6). *)
+Lemma tie_check_fragment_chars :
+  let l := p_nns_checkFragment_intlits in
+  forallb (fun c => Bool.eqb (is_lower c) (in_range c (nth 2 l 0) (nth 3 l 0))) all_bytes = true /\
+  forallb (fun c => Bool.eqb (check_fragment [c; 97%N] true) (in_range c (nth 2 l 0) (nth 3 l 0))) all_bytes = true /\
+  forallb (fun c => Bool.eqb (check_fragment [97%N; c; 97%N] false) (is_alnum c || (Z.of_N c =? nth 6 l 0))) all_bytes = true.
+Proof. repeat split; vm_compute; reflexivity. Qed.
